@@ -255,118 +255,245 @@ def run(repo, rep, tier):
         rep.finding("R17.4", uc, uc.node, "UserFcn.__call__ does not return `self.fcn(*args, **kwds)`", stmt="pass-through call")
 
 
+KINDS = ("CachedFcn", "UserFcn", "bare")       # a CachedFcn instance, a plain UserFcn instance, anything else
+
+
+class _Unsupported(Exception):
+    pass
+
+
+def wrapper_outcomes(fnode, param, kind, subclass_of):
+    """All outcomes of a wrapper function for an argument of the given kind: [(what, value, trace)] with what in
+    {"return", "raise"}, value the returned expression with locals and kind-decided conditionals resolved, trace the list of
+    (test node, branch) of the undecided tests passed.  isinstance(param, C) is decided by the kind; any other test forks."""
+
+    def truth(e):
+        if isinstance(e, ast.UnaryOp) and isinstance(e.op, ast.Not):
+            t = truth(e.operand)
+            return None if t is None else not t
+        if isinstance(e, ast.BoolOp):
+            vals = [truth(v) for v in e.values]
+            if isinstance(e.op, ast.And):
+                if any(v is False for v in vals):
+                    return False
+                return True if all(v is True for v in vals) else None
+            if any(v is True for v in vals):
+                return True
+            return False if all(v is False for v in vals) else None
+        if isinstance(e, ast.Call) and call_name(e) == "isinstance" and len(e.args) == 2 and isinstance(e.args[0], ast.Name) and e.args[0].id == param:
+            classes = e.args[1].elts if isinstance(e.args[1], ast.Tuple) else [e.args[1]]
+            names = [ast.unparse(c) for c in classes]
+            if all(n in subclass_of for n in names):
+                return any(kind in subclass_of[n] for n in names)
+        return None
+
+    def resolve(e, env):
+        if isinstance(e, ast.Name) and e.id in env:
+            return env[e.id]
+        if isinstance(e, ast.IfExp):
+            t = truth(resolve(e.test, env))
+            if t is not None:
+                return resolve(e.body if t else e.orelse, env)
+
+        class R(ast.NodeTransformer):
+            def visit_Name(self, n):
+                return env.get(n.id, n) if isinstance(n.ctx, ast.Load) else n
+
+            def visit_IfExp(self, n):
+                t = truth(n.test)
+                if t is not None:
+                    return self.visit(n.body if t else n.orelse)
+                return self.generic_visit(n)
+        import copy
+        return R().visit(copy.deepcopy(e))
+
+    def bind(target, value, env):
+        if isinstance(target, ast.Name):
+            env[target.id] = value
+        elif isinstance(target, (ast.Tuple, ast.List)) and isinstance(value, (ast.Tuple, ast.List)) and len(target.elts) == len(value.elts):
+            for t, v in zip(target.elts, value.elts):
+                bind(t, v, env)
+        else:
+            raise _Unsupported(f"assignment to {ast.unparse(target)}")
+
+    out = []
+
+    def block(stmts, env, trace):
+        """returns list of (env, trace) that fall through"""
+        live = [(env, trace)]
+        for st in stmts:
+            nxt = []
+            for env, trace in live:
+                if isinstance(st, ast.Expr):
+                    nxt.append((env, trace))
+                elif isinstance(st, ast.Return):
+                    out.append(("return", resolve(st.value, env) if st.value is not None else ast.Constant(value=None), trace))
+                elif isinstance(st, ast.Raise):
+                    out.append(("raise", st, trace))
+                elif isinstance(st, ast.Assign):
+                    env = dict(env)
+                    v = resolve(st.value, env)
+                    for t in st.targets:
+                        bind(t, v, env)
+                    nxt.append((env, trace))
+                elif isinstance(st, ast.If):
+                    test = resolve(st.test, env)
+                    t = truth(test)
+                    for br, body in ((True, st.body), (False, st.orelse)):
+                        if t is None or t is br:
+                            tr = trace + [(st, test, br)] if t is None else trace
+                            nxt += block(body, dict(env), tr)
+                elif isinstance(st, ast.Pass):
+                    nxt.append((env, trace))
+                else:
+                    raise _Unsupported(f"statement {type(st).__name__}")
+            live = nxt
+        return live
+
+    for env, trace in block([b for b in fnode.body], {}, []):
+        out.append(("return", ast.Constant(value=None), trace))
+    return out
+
+
+def _ctor(v, init_params):
+    """(class name, {param: argument text}) for a constructor call, positional and keyword arguments normalised"""
+    if not (isinstance(v, ast.Call) and isinstance(v.func, ast.Name)):
+        return None
+    if any(isinstance(a, ast.Starred) for a in v.args) or any(k.arg is None for k in v.keywords):
+        return None
+    args = {}
+    for pn, a in zip(init_params, v.args):
+        args[pn] = ast.unparse(a)
+    for k in v.keywords:
+        args[k.arg] = ast.unparse(k.value)
+    return v.func.id, args
+
+
 def wrapper_rules(repo, rep, r3, um):
     ser, cac, nam = um.functions["serializable"], um.functions["cached"], um.functions["named"]
     for f in (ser, cac, nam):
         rep.analysed_functions.add(f.construct)
-    # commutation of named() with cached()/serializable(): the constructor derives a default name from the expression (its text,
-    # the function's __name__) when none is given; cached(x) / serializable(x) therefore carry a non-None name for strings and
-    # def-functions.  If named()'s "second name" guard only asks `name is not None`, a FIRST explicit name applied after
-    # cached()/serializable() raises, although the same name applied before them is accepted: the wrappers do not commute.
     ufc = um.classes.get("UserFcn")
     init = repo.own_method(ufc, "__init__") if ufc is not None else None
     if init is None:
         raise AnalysisError("UserFcn.__init__ not found")
     sn0 = init.params[0]
-    namep = init.params[2] if len(init.params) > 2 else "name"
-    derived = [n for n in walk_local_stmt(init.node) if isinstance(n, ast.Assign) and any(
-        isinstance(t, ast.Attribute) and t.attr == "name" and isinstance(t.value, ast.Name) and t.value.id == sn0 for t in n.targets)
-        and not (isinstance(n.value, ast.Name) and n.value.id == namep)]
+    ip = init.params[1:]                   # (expr, name)
+    namep = ip[1] if len(ip) > 1 else "name"
+    exprp = ip[0]
+    cinit = um.classes["CachedFcn"].methods.get("__init__")
+    if cinit is not None and cinit.params[1:] != ip:
+        raise AnalysisError("CachedFcn.__init__ has its own signature: the wrapper table does not know how its arguments map")
+    subclass_of = {"CachedFcn": {"CachedFcn"}, "UserFcn": {"CachedFcn", "UserFcn"}}     # kinds that are instances of the class
+
+    def outcomes(f, param):
+        res = {}
+        for kind in KINDS:
+            try:
+                res[kind] = wrapper_outcomes(f.node, param, kind, subclass_of)
+            except _Unsupported as e:
+                raise AnalysisError(f"{f.qualname}: the wrapper table cannot follow this function ({e})")
+        return res
+
+    def returns(res, kind):
+        return [(v, tr) for what, v, tr in res[kind] if what == "return"]
+
+    def is_ctor(v, cls, want):
+        c = _ctor(v, ip)
+        if c is None or c[0] != cls:
+            return False
+        got = dict(c[1])
+        if got.get(namep) == "None" and namep not in want:
+            got.pop(namep)
+        return got == want
+
+    # ---- serializable: an existing wrapper (of either kind) is returned as it is; anything else is wrapped once
+    p = ser.params[0]
+    res = outcomes(ser, p)
+    for kind in ("CachedFcn", "UserFcn"):
+        rs = returns(res, kind)
+        ok = bool(rs) and all(isinstance(v, ast.Name) and v.id == p for v, _ in rs)
+        r3.ob(ok, f"serializable({kind} instance) returns it unchanged")
+        if not ok:
+            rep.finding("R17.3", ser, ser.node, f"serializable() does not return an existing {kind} unchanged (double wrapping / name lost): "
+                        f"it returns {[ast.unparse(v)[:50] for v, _ in rs]}", stmt=f"serializable idempotence [{kind}]")
+    rs = returns(res, "bare")
+    ok = bool(rs) and all(is_ctor(v, "UserFcn", {exprp: p}) for v, _ in rs)
+    r3.ob(ok, "serializable(bare) wraps it as UserFcn(fcn)")
+    if not ok:
+        rep.finding("R17.3", ser, ser.node, f"serializable() does not wrap a bare function as UserFcn({p}): it returns "
+                    f"{[ast.unparse(v)[:50] for v, _ in rs]}", stmt="serializable: wrap bare")
+    # ---- cached
+    p = cac.params[0]
+    res = outcomes(cac, p)
+    rs = returns(res, "CachedFcn")
+    ok = bool(rs) and all(isinstance(v, ast.Name) and v.id == p for v, _ in rs)
+    r3.ob(ok, "cached(CachedFcn instance) returns it unchanged")
+    if not ok:
+        rep.finding("R17.3", cac, cac.node, f"cached() does not return an existing CachedFcn unchanged (it returns "
+                    f"{[ast.unparse(v)[:50] for v, _ in rs]}): a cached function is wrapped twice / the subclass is tested after its base",
+                    stmt="cached idempotence")
+    rs = returns(res, "UserFcn")
+    ok = bool(rs) and all(is_ctor(v, "CachedFcn", {exprp: f"{p}.{exprp}", namep: f"{p}.{namep}"}) for v, _ in rs)
+    r3.ob(ok, "cached(UserFcn instance) re-wraps as CachedFcn(fcn.expr, fcn.name)")
+    if not ok:
+        rep.finding("R17.3", cac, cac.node, f"cached() does not re-wrap a UserFcn as CachedFcn({p}.expr, {p}.name) (it returns "
+                    f"{[ast.unparse(v)[:50] for v, _ in rs]}): the name (or the function) is lost, so named and cached do not commute",
+                    stmt="cached carries expr and name")
+    rs = returns(res, "bare")
+    ok = bool(rs) and all(is_ctor(v, "CachedFcn", {exprp: p}) for v, _ in rs)
+    r3.ob(ok, "cached(bare) wraps it as CachedFcn(fcn)")
+    if not ok:
+        rep.finding("R17.3", cac, cac.node, f"cached() does not wrap a bare function as CachedFcn({p}) (it returns "
+                    f"{[ast.unparse(v)[:50] for v, _ in rs]})", stmt="cached: wrap bare")
+    # ---- named
+    nm_p, fn_p = nam.params[0], nam.params[1]
+    res = outcomes(nam, fn_p)
     guard = None
-    for st in nam.node.body:
-        if isinstance(st, ast.If) and any(isinstance(b, ast.Raise) for b in st.body):
-            guard = st
+    for kind in ("CachedFcn", "UserFcn"):
+        # a second name raises before anything is returned: one undecided test mentions `fcn.name is not None`, raises on one
+        # side, and every return of this kind passed it on the other side
+        raising = [(st, test, br) for what, v, tr in res[kind] if what == "raise" for st, test, br in tr
+                   if f"{fn_p}.{namep}isnotNone" in ast.unparse(test).replace(" ", "") or f"{fn_p}.{namep}isNone" in ast.unparse(test).replace(" ", "")]
+        rs = returns(res, kind)
+        ok = False
+        for st, test, br in raising:
+            if all(any(s2 is st and b2 is (not br) for s2, _, b2 in tr) for _, tr in rs):
+                ok = True
+                guard = (st, test)
+        r3.ob(ok, f"named(name, {kind} instance): a second name raises before anything is returned")
+        if not ok:
+            rep.finding("R17.3", nam, nam.node, f"named() does not raise when the {kind} already has a name (or a return is reachable without "
+                        f"passing the test)", stmt=f"named: second name raises [{kind}]")
+        want = {exprp: f"{fn_p}.{exprp}", namep: nm_p}
+        ok = bool(rs) and all(is_ctor(v, kind, want) for v, _ in rs)
+        r3.ob(ok, f"named: a {kind} is re-wrapped as {kind}(fcn.expr, name)")
+        if not ok:
+            rep.finding("R17.3", nam, nam.node, f"named() does not re-wrap a {kind} as {kind}({fn_p}.expr, {nm_p}) (it returns "
+                        f"{[ast.unparse(v)[:50] for v, _ in rs]}): wrapper kind, expression or name is not preserved"
+                        + ("; the subclass CachedFcn is tested after its base UserFcn, so naming a cached function drops the caching" if kind == "CachedFcn" and
+                           any(is_ctor(v, "UserFcn", want) for v, _ in rs) else ""), stmt=f"named: rewrap {kind}")
+    rs = returns(res, "bare")
+    ok = bool(rs) and all(is_ctor(v, "UserFcn", {exprp: fn_p, namep: nm_p}) for v, _ in rs) and not any(w == "raise" for w, _, _ in res["bare"])
+    r3.ob(ok, "named: a bare function becomes UserFcn(fcn, name)")
+    if not ok:
+        rep.finding("R17.3", nam, nam.node, f"named() does not wrap a bare function as UserFcn({fn_p}, {nm_p}) (outcomes "
+                    f"{[(w, ast.unparse(v)[:40]) for w, v, _ in res['bare']]})", stmt="named: wrap bare")
+    # commutation of named() with cached()/serializable(): the constructor derives a default name from the expression (its text,
+    # the function's __name__) when none is given; cached(x) / serializable(x) therefore carry a non-None name for strings and
+    # def-functions.  If named()'s "second name" guard only asks `name is not None`, a FIRST explicit name applied after
+    # cached()/serializable() raises, although the same name applied before them is accepted: the wrappers do not commute.
+    derived = [n for n in walk_local_stmt(init.node) if isinstance(n, ast.Assign) and any(
+        isinstance(t, ast.Attribute) and t.attr == namep and isinstance(t.value, ast.Name) and t.value.id == sn0 for t in n.targets)
+        and not (isinstance(n.value, ast.Name) and n.value.id == namep)]
     if guard is not None and derived:
-        txt = ast.unparse(guard.test)
-        distinguishes = any(isinstance(x, ast.Compare) and any(isinstance(o, (ast.Eq, ast.NotEq)) for o in x.ops) and ".name" in ast.unparse(x)
-                            for x in ast.walk(guard.test)) or "default" in txt.lower()
+        gst, gtest = guard
+        txt = ast.unparse(gtest)
+        distinguishes = any(isinstance(x, ast.Compare) and any(isinstance(o, (ast.Eq, ast.NotEq)) for o in x.ops) and f".{namep}" in ast.unparse(x)
+                            for x in ast.walk(gtest)) or "default" in txt.lower()
         r3.ob(distinguishes, "named(): the second-name guard tells a derived default name from an explicit one")
         if not distinguishes:
-            rep.finding("R17.3", nam, guard, f"UserFcn.__init__ derives a default name from the expression ({', '.join(norm(d)[:40] for d in derived[:2])}), and named() "
+            rep.finding("R17.3", nam, gst, f"UserFcn.__init__ derives a default name from the expression ({', '.join(norm(d)[:40] for d in derived[:2])}), and named() "
                         f"rejects every wrapper whose name is not None (`{txt[:60]}`): named(n, cached(s)) and named(n, serializable(s)) raise for a "
                         f"string expression or def-function s, although cached(named(n, s)) is accepted - the wrappers do not commute",
                         stmt="second-name guard fires on derived default names")
-
-    def branches(f, param):
-        """[(isinstance class name or None, returned expr)] in order"""
-        out = []
-        for st in f.node.body:
-            if isinstance(st, ast.If):
-                t = st.test
-                cls = None
-                for n in ast.walk(t):
-                    if isinstance(n, ast.Call) and call_name(n) == "isinstance" and ast.unparse(n.args[0]) == param:
-                        cls = ast.unparse(n.args[1])
-                for b in st.body:
-                    if isinstance(b, ast.Return):
-                        out.append((cls, b.value, st))
-                    if isinstance(b, ast.Raise):
-                        out.append((cls, "raise", st))
-            elif isinstance(st, ast.Return):
-                out.append((None, st.value, st))
-        return out
-
-    # serializable: UserFcn instance returned as is; otherwise wrapped
-    p = ser.params[0]
-    br = branches(ser, p)
-    ok = any(c == "UserFcn" and isinstance(v, ast.Name) and v.id == p for c, v, _ in br)
-    r3.ob(ok, "serializable: a UserFcn is returned unchanged")
-    if not ok:
-        rep.finding("R17.3", ser, ser.node, "serializable() does not return an existing UserFcn unchanged (double wrapping / name lost)",
-                    stmt="serializable idempotence")
-    # cached
-    p = cac.params[0]
-    br = branches(cac, p)
-    order = [c for c, v, _ in br if c]
-    ok = "CachedFcn" in order and "UserFcn" in order and order.index("CachedFcn") < order.index("UserFcn")
-    r3.ob(ok, "cached: CachedFcn tested before UserFcn")
-    if not ok:
-        rep.finding("R17.3", cac, cac.node, "cached() tests the base class UserFcn before its subclass CachedFcn: the subclass branch is "
-                    "unreachable and a cached function is wrapped twice", stmt="cached: isinstance order")
-    ok = any(c == "CachedFcn" and isinstance(v, ast.Name) and v.id == p for c, v, _ in br)
-    r3.ob(ok, "cached: a CachedFcn is returned unchanged")
-    if not ok:
-        rep.finding("R17.3", cac, cac.node, "cached() does not return an existing CachedFcn unchanged", stmt="cached idempotence")
-    ok = any(c == "UserFcn" and isinstance(v, ast.Call) and call_name(v) == "CachedFcn"
-             and [ast.unparse(x) for x in v.args] == [f"{p}.expr", f"{p}.name"] for c, v, _ in br)
-    r3.ob(ok, "cached: re-wrapping a UserFcn carries expr and name")
-    if not ok:
-        rep.finding("R17.3", cac, cac.node, "cached() does not re-wrap a UserFcn as CachedFcn(fcn.expr, fcn.name): the name (or the "
-                    "function) is lost, so named and cached do not commute", stmt="cached carries expr and name")
-    # named
-    nm_p, fn_p = nam.params[0], nam.params[1]
-    g = cfgmod.build(nam.node)
-    raises = False
-    for n in g.nodes:
-        if n.kind == "test":
-            t = ast.unparse(n.ast).replace(" ", "")
-            if f"isinstance({fn_p},UserFcn)" in t and f"{fn_p}.nameisnotNone" in t and edge_always_raises(g, n, "T")[0]:
-                raises = True
-                # must dominate all returns
-                dom = g.dominators()
-                for lab, pr in g.ret.pred:
-                    if pr in dom and n.id not in dom[pr]:
-                        raises = False
-    r3.ob(raises, "named: a second name raises before anything is returned")
-    if not raises:
-        rep.finding("R17.3", nam, nam.node, "named() does not raise when the function already has a name (or the test does not come "
-                    "first)", stmt="named: second name raises")
-    br = branches(nam, fn_p)
-    order = [c for c, v, _ in br if c and v != "raise"]
-    ok = "CachedFcn" in order and "UserFcn" in order and order.index("CachedFcn") < order.index("UserFcn")
-    r3.ob(ok, "named: CachedFcn tested before UserFcn")
-    if not ok:
-        rep.finding("R17.3", nam, nam.node, "named() tests UserFcn before its subclass CachedFcn: naming a cached function silently drops "
-                    "the caching", stmt="named: isinstance order")
-    for cls in ("CachedFcn", "UserFcn"):
-        ok = any(c == cls and isinstance(v, ast.Call) and call_name(v) == cls and [ast.unparse(x) for x in v.args] == [f"{fn_p}.expr", nm_p]
-                 for c, v, _ in br if v != "raise")
-        r3.ob(ok, f"named: a {cls} is re-wrapped as {cls}(fcn.expr, name)")
-        if not ok:
-            rep.finding("R17.3", nam, nam.node, f"named() does not re-wrap a {cls} as {cls}(fcn.expr, name): wrapper kind or expression "
-                        f"is not preserved", stmt=f"named: rewrap {cls}")
-    ok = any(c is None and isinstance(v, ast.Call) and call_name(v) == "UserFcn" and [ast.unparse(x) for x in v.args] == [fn_p, nm_p]
-             for c, v, _ in br if v != "raise")
-    r3.ob(ok, "named: a bare function becomes UserFcn(fcn, name)")
-    if not ok:
-        rep.finding("R17.3", nam, nam.node, "named() does not wrap a bare function as UserFcn(fcn, name)", stmt="named: wrap bare")
